@@ -38,6 +38,7 @@ type connPlan struct {
 	closeErr     bool             // Close returns an error
 	dropGate     string           // the peer closes the connection when this gate opens (after the CONNACK)
 	noPubcomp    bool             // a PUBREL is not answered on this connection (the QoS 2 flow stays open after PUBREC)
+	dialGate     string           // the Dialer blocks until this gate opens
 }
 
 // faultFree: the peer of this attempt answers everything promptly and never drops
@@ -174,6 +175,10 @@ func (d *recDialer) Dial(string) (transport.Conn, error) {
 		}
 	}
 	s.mu.Unlock()
+	if plan.dialGate != "" {
+		s.ev("dialwait %d", k)
+		s.waitGate(plan.dialGate)
+	}
 	if plan.refuse {
 		s.ev("dial %d 0", k)
 		return nil, errInjected
